@@ -234,7 +234,10 @@ func c20PathPart(kind, class, ok string) string {
 	case "key":
 		m := map[string]string{"empty": "", "slashonly": "/", "dots": "../../c20-escape", "long": strings.Repeat("k", 1100),
 			"unicode": s3c.EncPath("ключ/键 \U0001F511"), "nul": "k%00k", "trailslash": s3c.EncPath(ok) + "/", "encslash": "%2F",
-			"badescape": "%zz", "unknown": "c20-no-such-key", "dotonly": "."}
+			"badescape": "%zz", "unknown": "c20-no-such-key", "dotonly": ".",
+			// one character many times: the worst case for a backtracking match against the
+			// many-star resource pattern of the fixture's bucket policy
+			"repeat": strings.Repeat("a", 120)}
 		if v, ok := m[class]; ok {
 			return v
 		}
